@@ -26,7 +26,7 @@ def parseSpec? (s : String) : Option Spec :=
   else (parseNatList? s).map Spec.many
 
 def parsePred? (s : St) : List String → Option (Nat → Bool)
-  | ["all"] => some (fun _ => true)
+  | ["all"] => some (fun _ => true)   -- an explicit always-true predicate (`lambda o: True`)
   | ["par", k] => (parseNat? k).map (fun k => fun n => n % 2 == k)
   | ["mod3", k] => (parseNat? k).map (fun k => fun n => n % 3 == k)
   | ["type", t] => (parseNat? t).map (fun t => fun n => s.typ n == t)
@@ -36,15 +36,20 @@ def parsePred? (s : St) : List String → Option (Nat → Bool)
       some (fun n => hasFlags (s.flags n) sp ex)
   | _ => none
 
+/-- `none` = the query is called without a predicate (`predicate=None`) -/
+def parsePredOpt? (s : St) : List String → Option (Option (Nat → Bool))
+  | ["none"] => some none
+  | ws => (parsePred? s ws).map some
+
 def inRange (s : St) (l : List Nat) : Bool := l.all (fun x => x < s.next)
 
 def stepLine (s : St) (ws : List String) : St × String :=
   let bad := (s, "bad-op")
   match ws with
   | ["reset"] => (St.empty, "ok ")
-  | ["new", k, f, t, g] => match parseNat? k, parseNat? f, parseNat? t, parseBool? g with
-      | some k, some f, some t, some g => res (newNode s k f t g, true)
-      | _, _, _, _ => bad
+  | ["new", k, f, t, g, b] => match parseNat? k, parseNat? f, parseNat? t, parseBool? g, parseBool? b with
+      | some k, some f, some t, some g, some b => res (newNode s k f t g b, true)
+      | _, _, _, _, _ => bad
   -- fixture set-up only (mirror an existing real tree): raw Composite.add, locator into h's grid
   | ["rawadd", p, c] => match parseNat? p, parseNat? c with
       | some p, some c => if inRange s [p, c] then res (cAdd s p c) else bad
@@ -67,11 +72,23 @@ def stepLine (s : St) (ws : List String) : St × String :=
   | ["remove", p, c] => match parseNat? p, parseNat? c with
       | some p, some c => if inRange s [p, c] then res (remove s p c) else bad
       | _, _ => bad
+  -- SpentFuelPool.add / ExcoreStructure.add
+  | ["sfpadd", p, c] => match parseNat? p, parseNat? c with
+      | some p, some c => if inRange s [p, c] then res (excoreAdd s p c) else bad
+      | _, _ => bad
+  -- Core.removeAssembly(a, discharge): `discharge core a sfp` (sfp `_` = purge / not tracked / no pool)
+  | ["discharge", co, a, sfp] => match parseNat? co, parseNat? a with
+      | some co, some a =>
+        if sfp = "_" then (if inRange s [co, a] then res (removeAssembly s co a none) else bad)
+        else match parseNat? sfp with
+          | some p => if inRange s [co, a, p] then res (removeAssembly s co a (some p)) else bad
+          | none => bad
+      | _, _ => bad
   | ["removeAll", p] => match parseNat? p with
-      | some p => if inRange s [p] then res (removeAll s p) else bad
+      | some p => if inRange s [p] then res (removeAllCode s p) else bad
       | _ => bad
   | ["setChildren", p, l] => match parseNat? p, parseNatList? l with
-      | some p, some l => if inRange s (p :: l) then res (setChildren s p l) else bad
+      | some p, some l => if inRange s (p :: l) then res (setChildrenCode s p l) else bad
       | _, _ => bad
   | ["append", p, c] => match parseNat? p, parseNat? c with
       | some p, some c => if inRange s [p, c] then res (cAppend s p c, true) else bad
@@ -88,14 +105,44 @@ def stepLine (s : St) (ws : List String) : St × String :=
   | ["copy", n] => match parseNat? n with
       | some n => if inRange s [n] then res (copyTree s n, true) else bad
       | _ => bad
-  | "iter" :: n :: deep :: g :: pred => match parseNat? n, parseBool? deep, parseInt? g, parsePred? s pred with
+  | "iter" :: n :: deep :: g :: pred => match parseNat? n, parseBool? deep, parseInt? g, parsePredOpt? s pred with
       | some n, some deep, some g, some chk =>
         if inRange s [n] then
-          (s, match iterChildren s (s.next + 1) deep g chk n with
+          (s, match getChildren s (s.next + 1) deep g chk n with
               | none => "reject"
               | some l => showList toString l)
         else bad
       | _, _, _, _ => bad
+  -- getChildren(includeMaterials=True) / iterChildrenWithMaterials
+  | "itermat" :: n :: deep :: g :: pred => match parseNat? n, parseBool? deep, parseInt? g, parsePredOpt? s pred with
+      | some n, some deep, some g, some chk =>
+        if inRange s [n] then
+          (s, match getChildrenWithMaterials s (s.next + 1) deep g chk n with
+              | none => "reject"
+              | some l => showList (fun i => match i with | Item.obj c => toString c | Item.mat c => "m" ++ toString c) l)
+        else bad
+      | _, _, _, _ => bad
+  | ["kidsflags", n, sp, ex] => match parseNat? n, parseSpec? sp, parseBool? ex with
+      | some n, some sp, some ex =>
+        if inRange s [n] then (s, showList toString (getChildrenWithFlags s (s.next + 1) sp ex n)) else bad
+      | _, _, _ => bad
+  | ["kidstype", n, t] => match parseNat? n, parseNat? t with
+      | some n, some t => if inRange s [n] then (s, showList toString (getChildrenOfType s (s.next + 1) t n)) else bad
+      | _, _ => bad
+  | ["first", n, sp, ex] => match parseNat? n, parseSpec? sp, parseBool? ex with
+      | some n, some sp, some ex =>
+        if inRange s [n] then (s, match getFirstBlock s (s.next + 1) sp ex n with | none => "none" | some c => toString c) else bad
+      | _, _, _ => bad
+  | ["firsttype", n, t] => match parseNat? n, parseNat? t with
+      | some n, some t =>
+        if inRange s [n] then (s, match getFirstBlockByType s t n with | none => "none" | some c => toString c) else bad
+      | _, _ => bad
+  | ["ancflags", n, sp, ex] => match parseNat? n, parseSpec? sp, parseBool? ex with
+      | some n, some sp, some ex =>
+        if inRange s [n] then
+          (s, match getAncestorWithFlags s (s.next + 1) sp ex n with | none => "none" | some a => toString a)
+        else bad
+      | _, _, _ => bad
   | ["comps", n, sp, ex] => match parseNat? n, parseSpec? sp, parseBool? ex with
       | some n, some sp, some ex =>
         if inRange s [n] then
@@ -125,11 +172,12 @@ structure Data where
   kind : Array Nat
   flags : Array Nat
   typ : Array Nat
+  truthy : Array Bool
   next : Nat
   nextGrid : Nat
 
 def Data.empty : Data :=
-  { parent := #[], kids := #[], loc := #[], grid := #[], owner := #[], kind := #[], flags := #[], typ := #[],
+  { parent := #[], kids := #[], loc := #[], grid := #[], owner := #[], kind := #[], flags := #[], typ := #[], truthy := #[],
     next := 0, nextGrid := 0 }
 
 def inject (d : Data) : St :=
@@ -141,6 +189,7 @@ def inject (d : Data) : St :=
     kind := fun x => d.kind.getD x 0
     flags := fun x => d.flags.getD x 0
     typ := fun x => d.typ.getD x 0
+    truthy := fun x => d.truthy.getD x true
     next := d.next
     nextGrid := d.nextGrid }
 
@@ -154,6 +203,7 @@ def extract (s : St) : Data :=
     kind := rn.map (fun x => s.kind x)
     flags := rn.map (fun x => s.flags x)
     typ := rn.map (fun x => s.typ x)
+    truthy := rn.map (fun x => s.truthy x)
     next := s.next
     nextGrid := s.nextGrid }
 
